@@ -36,12 +36,17 @@ inductive HeapObj where
   | map (entries : List (Val × Val)) (dflt : Val)
   | lock (held : Bool)
   | waitgroup (n : Nat)
-  | cond (lockObj : Nat)
+  | cond (lockObj : Nat) (waiting : List Nat := []) (woken : List Nat := [])   -- waiter ids, used by the strict semantics only
   deriving Repr, Inhabited
 
 structure World where
   heap : Array HeapObj := #[]
   disk : Array (List Val) := #[]        -- lazily initialised 30-block disk of the generated tests
+  /-- `false`: Perennial's semantics — `condWait` is release-then-acquire (it may always wake up), signal and broadcast do
+  nothing. `true`: Go's `sync.Cond` — `Wait` returns only after a `Signal` (one waiter) or `Broadcast` (all waiters); used
+  to check that a program which cannot deadlock in Go cannot deadlock as emitted either. `condWaitTimeout` may return by
+  its timeout in both. -/
+  strictCond : Bool := false
   deriving Inhabited, Repr
 
 inductive Res (α : Type) where
@@ -270,6 +275,7 @@ inductive Frame where
   | iterK (f : Val) (todo : List (List Val))       -- ForSlice / MapIter: remaining argument lists for f
   | discardK (v : Val)                             -- return v after the current evaluation
   | acquireK (lockObj : Nat)                       -- second half of condWait
+  | wakeK (condObj : Nat) (id : Nat)               -- strict semantics: parked until a signal/broadcast names this waiter
   deriving Inhabited, Repr
 
 inductive Ctl where
@@ -507,12 +513,28 @@ def runBuiltin (p : Prog) (w : World) (f : String) (args : List Val) (k : List F
   | "lock.newCond", [.loc o []] => let (w', c) := w.alloc (.cond o); retS (.loc c []) w'
   | "lock.condWait", [.loc c []] | "lock.condWaitTimeout", [.loc c [], _] =>
     match w.heap[c]? with
-    | some (.cond l) =>
+    | some (.cond l wt wk) =>
       match w.heap[l]? with
-      | some (.lock true) => .next { ctl := .ret .unit, k := .acquireK l :: k } { w with heap := w.heap.set! l (.lock false) } none true
+      | some (.lock true) =>
+        if w.strictCond && f == "lock.condWait" then
+          -- the smallest id not in use names this waiter; a signal sent later cannot be taken by a waiter that arrives later
+          let id := ((List.range (wt.length + wk.length + 1)).find? (fun i => !(wt.contains i) && !(wk.contains i))).getD 0
+          .next { ctl := .ret .unit, k := .wakeK c id :: .acquireK l :: k }
+            { w with heap := (w.heap.set! l (.lock false)).set! c (.cond l (wt ++ [id]) wk) } none true
+        else .next { ctl := .ret .unit, k := .acquireK l :: k } { w with heap := w.heap.set! l (.lock false) } none true
       | _ => stuck "condWait without holding the lock"
     | _ => stuck "not a condition variable"
-  | "lock.condSignal", _ | "lock.condBroadcast", _ => retS .unit w
+  | "lock.condSignal", [.loc c []] =>
+    match w.heap[c]? with
+    | some (.cond l wt wk) =>
+      match w.strictCond, wt with
+      | true, id :: rest => retS .unit { w with heap := w.heap.set! c (.cond l rest (wk ++ [id])) }   -- the longest waiting one (as sync.Cond's notify list)
+      | _, _ => retS .unit w
+    | _ => stuck "not a condition variable"
+  | "lock.condBroadcast", [.loc c []] =>
+    match w.heap[c]? with
+    | some (.cond l wt wk) => if w.strictCond then retS .unit { w with heap := w.heap.set! c (.cond l [] (wk ++ wt)) } else retS .unit w
+    | _ => stuck "not a condition variable"
   | "waitgroup.New", _ => let (w', o) := w.alloc (.waitgroup 0); retS (.loc o []) w'
   | "waitgroup.Add", [.loc o [], n] =>
     match w.heap[o]?, natOf n with
@@ -745,6 +767,12 @@ def step (p : Prog) (w : World) (t : Thread) : StepOut :=
         match sliceElems w v with
         | some vs => go (.ret .unit) (.iterK x ((vs.zipIdx).map (fun (e, i) => [.u64 i, e])) :: k)
         | none => .stuck "ForSlice over a non-slice"
+      | .wakeK c id =>
+        match w.heap[c]? with
+        | some (.cond l wt wk) =>
+          if wk.contains id then .next { ctl := .ret .unit, k := k } { w with heap := w.heap.set! c (.cond l wt (wk.erase id)) } none true
+          else .blocked
+        | _ => .stuck "not a condition variable"
       | .acquireK l =>
         match w.heap[l]? with
         | some (.lock false) => .next { ctl := .ret .unit, k := k } { w with heap := w.heap.set! l (.lock true) } none true
@@ -820,7 +848,7 @@ partial def showVal (w : World) (depth : Nat) : Val → String
       "map{" ++ ",".intercalate items ++ "}"
     | some (.lock _), _ => "<lock>"
     | some (.waitgroup _), _ => "<waitgroup>"
-    | some (.cond _), _ => "<cond>"
+    | some (.cond _ _ _), _ => "<cond>"
     | _, _ =>
       match w.load o path with
       | some v => "&" ++ showVal w (depth - 1) v
